@@ -37,7 +37,7 @@ RULE = ("CFGs given as per-block ordered successor lists (block 0 = entry) reali
         "pairwise disjoint by construction (counted), random graphs (n>=5 lists, disjoint from the exhaustive space "
         "in quick; n>=6 in thorough) by hash of the successor lists. EDIT HISTORIES: every single in-place retargeting "
         "term.successors[i]=blk of every n<=3 graph (32 224, of which 6 140 move one of several parallel edges) and random "
-        "12-step histories over 10 edit kinds (setitem, successors setter, terminator replaced/erased/added via Block and "
+        "12-step histories over 11 edit kinds (another region's blocks inlined at end/start/before/after via Rewriter.inline_region / Region.move_blocks(_before) followed by insert-before/detach/erase/split at the seam, setitem, successors setter, terminator replaced/erased/added via Block and "
         "Rewriter, block added/erased/detached/moved/split, region cloned), re-queried after every edit against the "
         "generator's own edge record; a random history is non-trivial with >=4 successful edits of >=2 kinds, distinct by "
         "hash of (initial graph, steps)")
@@ -272,7 +272,7 @@ def run_case(cx: Ctx, succs, variant=0, order=None, wrap=False, cross_check=Fals
 
 
 def check_graph(cx: Ctx, succs, region, blocks, term_ok, wit, order=None, variant=0, cross_check=False, module_fn="all",
-                record_hash=False, count_nt=True, sample=True):
+                record_hash=False, count_nt=True, sample=True, entry_block=None):
     """Compare the real dominance / post-order answers for `region` with the reference computed from `succs`, the
     INTENDED edges (index i = blocks[i], index 0 = entry). `succs` is never read back from the IR."""
     X = _X
@@ -315,6 +315,7 @@ def check_graph(cx: Ctx, succs, region, blocks, term_ok, wit, order=None, varian
     if info is not None:
         cx.c("dominance_infos")
         bad = []
+        raised = False
         for b in range(n):
             bb = blocks[b]
             if b not in R:
@@ -322,10 +323,20 @@ def check_graph(cx: Ctx, succs, region, blocks, term_ok, wit, order=None, varian
                 cx.c("queries_unreachable_target_not_judged", n)
                 continue
             db = dom[b]
+            if raised:
+                break
             for a in range(n):
                 want = a in db
-                got = info.dominates(blocks[a], bb)
-                gots = info.strictly_dominates(blocks[a], bb)
+                try:
+                    got = info.dominates(blocks[a], bb)
+                    gots = info.strictly_dominates(blocks[a], bb)
+                except Exception as e:  # noqa: BLE001 - a raise of the code under test is an observation
+                    w = dict(wit)
+                    w.update(a=a, b=b)
+                    cx.viol(f"dominance:query-raises:{type(e).__name__}",
+                            f"DominanceInfo(region).dominates(bb{a}, bb{b}) raised {e!r}; intended succs={succs}", w)
+                    raised = True
+                    break
                 cx.c("dominates_queries_compared")
                 if want:
                     cx.c("dominates_true_expected")
@@ -367,7 +378,7 @@ def check_graph(cx: Ctx, succs, region, blocks, term_ok, wit, order=None, varian
     signal.setitimer(signal.ITIMER_VIRTUAL, PO_CPU_GUARD_S)
     try:
         try:
-            it = X["PostOrderIterator"](blocks[0])
+            it = X["PostOrderIterator"](blocks[0] if entry_block is None else entry_block)
             got_blocks = list(itertools.islice(it, limit))
             exhausted_ok = True
             if len(got_blocks) < limit:
@@ -448,7 +459,7 @@ def check_graph(cx: Ctx, succs, region, blocks, term_ok, wit, order=None, varian
 # the record only; `op.successors` / `region.blocks` are never read back to build it.
 KNOWN_API = ["dominance.DominanceInfo", "dominance.strictly_dominates", "post_order.PostOrderIterator"]
 EDIT_KINDS = ["setitem", "setsucc", "replace_term", "drop_term", "add_term", "add_block", "erase_block", "move_block",
-              "split", "clone"]
+              "split", "clone", "inline"]
 MAX_HIST_BLOCKS = 7
 
 
@@ -460,6 +471,7 @@ class Hist:
         self.succ = {i: list(s) for i, s in enumerate(init_succs)}
         self.obj = {i: X["Block"]() for i in self.order}
         self.has_term = {}
+        self.moved_first = None  # id of the first block of the most recently inlined group
         self.grave = []  # strong references to everything erased (ids are never recycled)
         for i in self.order:
             if (pad_seed + i) % 3 == 0:
@@ -570,6 +582,43 @@ class Hist:
             self.order.remove(b)
             self.region.insert_block(blk, idx)
             self.order.insert(idx, b)
+        elif k == "inline":
+            # blocks of ANOTHER region are moved into the region under test (end / start / before / after a block)
+            _, ids, tgs, how, idx = step
+            from xdsl.rewriter import BlockInsertPoint
+            for nb in ids:
+                self.obj[nb] = X["Block"]()
+                self.next_id = max(self.next_id, nb + 1)
+            for nb, tg in zip(ids, tgs):
+                if tg is None:
+                    self.succ[nb], self.has_term[nb] = [], False
+                else:
+                    self.obj[nb].add_op(self.new_term(tg))
+                    self.succ[nb], self.has_term[nb] = list(tg), True
+            src = X["Region"]([self.obj[nb] for nb in ids])
+            src_holder = X["TestOp"].create(regions=[src])
+            self.grave.append(src_holder)
+            n = len(self.order)
+            if how == "move_blocks":
+                src.move_blocks(self.region)
+                at = n
+            elif how == "inline_end":
+                X["Rewriter"].inline_region(src, BlockInsertPoint.at_end(self.region))
+                at = n
+            elif how == "inline_start":
+                X["Rewriter"].inline_region(src, BlockInsertPoint.at_start(self.region))
+                at = 0
+            elif how == "inline_before":
+                X["Rewriter"].inline_region(src, BlockInsertPoint.before(self.obj[self.order[idx]]))
+                at = idx
+            elif how == "inline_after":
+                X["Rewriter"].inline_region(src, BlockInsertPoint.after(self.obj[self.order[idx]]))
+                at = idx + 1
+            else:  # move_blocks_before
+                src.move_blocks_before(self.obj[self.order[idx]])
+                at = idx
+            self.order[at:at] = list(ids)
+            self.moved_first = ids[0]
         elif k == "split":
             _, b, nb, at_term = step
             blk = self.obj[b]
@@ -588,10 +637,41 @@ class Hist:
         n = len(self.order)
         with_term = [b for b in self.order if self.has_term[b]]
         with_edges = [b for b in self.order if self.succ[b]]
+        mf = self.moved_first
+        if mf is not None and mf in self.succ and rng.random() < .45:
+            # list surgery right at the seam of an inlined group: insert before / detach / erase / split the first moved
+            # block or its neighbour in front
+            pos = self.order.index(mf)
+            opts = []
+            if n < MAX_HIST_BLOCKS:
+                nb = self.next_id
+                tg = [rng.choice(self.order + [nb]) for _ in range(rng.choice([0, 1, 2]))]
+                opts.append(["add_block", nb, pos, tg, "before"])
+                opts.append(["add_block", nb, pos, tg, "insert"])
+                if self.obj[mf].first_op is not None:
+                    opts.append(["split", mf, nb, rng.random() < .5])
+                if pos > 0 and self.obj[self.order[pos - 1]].first_op is not None:
+                    opts.append(["split", self.order[pos - 1], nb, rng.random() < .5])
+            if n > 1 and not self.incoming(mf):
+                opts.append(["erase_block", mf, rng.choice(["erase", "erase_index", "detach"])])
+            if n > 1:
+                opts.append(["move_block", mf, rng.randrange(n)])
+            if opts:
+                self.moved_first = None
+                return rng.choice(opts)
         for _ in range(30):
             k = focus if focus and rng.random() < .5 else rng.choices(
-                ["setitem", "setsucc", "replace_term", "drop_term", "add_term", "add_block", "erase_block", "move_block", "split"],
-                [8, 4, 4, 1, 2, 2, 2, 2, 1])[0]
+                ["setitem", "setsucc", "replace_term", "drop_term", "add_term", "add_block", "erase_block", "move_block", "split",
+                 "inline"],
+                [8, 4, 4, 1, 2, 2, 2, 2, 1, 3])[0]
+            if k == "inline" and n + 1 <= MAX_HIST_BLOCKS:
+                cnt = rng.randint(1, min(3, MAX_HIST_BLOCKS - n))
+                ids = list(range(self.next_id, self.next_id + cnt))
+                tgs = [None if rng.random() < .15 else [rng.choice(self.order + ids) for _ in range(rng.choice([0, 1, 2, 2]))]
+                       for _ in ids]
+                how = rng.choice(["move_blocks", "inline_end", "inline_end", "inline_start", "inline_before", "inline_after",
+                                  "move_blocks_before"])
+                return ["inline", ids, tgs, how, rng.randrange(n)]
             if k == "setitem" and with_edges:
                 # prefer terminators with parallel edges: the in-place retargeting must move exactly edge i
                 multi = [b for b in with_edges if len(set(self.succ[b])) < len(self.succ[b])]
@@ -648,9 +728,10 @@ def check_hist(cx: Ctx, h: Hist, init, steps, last, clone=False):
     try:
         if len(actual) != len(blocks) or any(x is not y for x, y in zip(actual, blocks)):
             cx.viol("history:region-block-list-differs-from-intended",
-                    f"after {steps[-1] if steps else 'build'} the region holds {len(actual)} blocks in an order other than intended", wit)
-            return False
-        if not blocks:
+                    f"after {steps[-1] if steps else 'build'} region.blocks has {len(actual)} blocks, the intended region has "
+                    f"{len(blocks)} (positions of intended blocks in region.blocks: "
+                    f"{[next((k for k, x in enumerate(actual) if x is y), None) for y in blocks]})", wit)
+        if not blocks or not actual:
             return True
         cx.c("history_states_checked")
         cx.c("history_state_after:" + last)
@@ -658,9 +739,10 @@ def check_hist(cx: Ctx, h: Hist, init, steps, last, clone=False):
             cx.c("history_states_with_parallel_edges")
         if any(i in s for i, s in enumerate(succs)):
             cx.c("history_states_with_self_loops")
+        # the traversal starts where clients start it: at what the region reports as its first block
         check_graph(cx, succs, h.region, blocks, term_ok, wit, cross_check=len(blocks) <= 5, module_fn="all",
-                    count_nt=False, sample=False)
-        if clone:
+                    count_nt=False, sample=False, entry_block=actual[0])
+        if clone and len(actual) == len(blocks):
             cx.keyp = f"after-{last}+clone:"
             r2 = h.region.clone()
             cx.c("history_clones_checked")
@@ -693,7 +775,9 @@ def run_history(cx: Ctx, init_succs, pad, steps=None, rng=None, nsteps=0, focus=
             return done
         cx.c("history_edits")
         cx.c("history_edit:" + step[0] + (":" + str(step[-1]) if step[0] in ("replace_term", "erase_block", "drop_term") else
-                                          ":" + step[4] if step[0] == "add_block" else ""))
+                                          ":" + step[4] if step[0] == "add_block" else ":" + step[3] if step[0] == "inline" else ""))
+        if step[0] != "inline" and len(done) >= 2 and done[-2][0] == "inline" and step[0] in ("add_block", "erase_block", "split", "move_block"):
+            cx.c("history_list_surgery_right_after_inline:" + step[0])
         if not check_hist(cx, h, init, done, step[0], clone=(rng is not None and rng.random() < .08)):
             return done
     if len(cx.samples) < 3 and len(done) >= 4 and steps is None:
@@ -892,8 +976,11 @@ def finish(agg, tier):
             "graphs_with_unreachable_pred_of_reachable": 20_000, "oracle_cross_checks": 150_000,
             "module_strictly_dominates_compared": 100_000, "random_nontrivial": 5_000}
     need.update({"history_states_checked": 20_000, "history_edits": 12_000, "history_states_with_parallel_edges": 4_000,
-                 "history_states_with_self_loops": 4_000, "history_clones_checked": 300, "random_histories_nontrivial": 800})
-    for k in ("setitem", "setsucc", "replace_term", "drop_term", "add_term", "add_block", "erase_block", "move_block", "split"):
+                 "history_states_with_self_loops": 4_000, "history_clones_checked": 300, "history_edit:inline:move_blocks": 50, "history_edit:inline:inline_end": 100,
+                 "history_list_surgery_right_after_inline:add_block": 40, "history_list_surgery_right_after_inline:erase_block": 15,
+                 "history_list_surgery_right_after_inline:split": 20, "random_histories_nontrivial": 800})
+    for k in ("setitem", "setsucc", "replace_term", "drop_term", "add_term", "add_block", "erase_block", "move_block", "split",
+              "inline"):
         need["history_state_after:" + k] = 150
     for k, v in need.items():
         if c.get(k, 0) < v:
